@@ -86,6 +86,12 @@ PALETTE = {
         ("a & b", "v3", [("warning", "can't parse en-US value"), ("error", "not well-formed (invalid token)")]),
         ("bad " + FFFD + " char", "v6", [("warning", FFFD + " in: {key}")]),
         ("", "v7", []),
+        # values referencing entities: checked against ITSELF with the linted file as context (DTDChecker collects the known
+        # entities from the file being linted), every reference made anywhere in the file is known -> no results,
+        # whatever the reference version of the file mentions
+        ("Welcome to &brandShortName;", "v8", []),
+        ("see &OTHER; of &brandShortName;", "v9", []),
+        ("&vendorShortName; and &OTHER;", "v10", []),
     ],
     "ini": [
         ("plain value", "v1", []),
@@ -103,9 +109,17 @@ PALETTE = {
         ("plain value", "v1", []),
         ("other text", "v2", []),
         ("with { $var } inside", "v3", []),
-        ("dup attrs\n    .a = 1\n    .a = 2", "v4", [("warning", 'Attribute "a" is duplicated'), ("warning", 'Attribute "a" is duplicated')]),
+        ("dup attrs\n    .a = 1\n    .a = 2", "v4|a1a2", [("warning", 'Attribute "a" is duplicated'), ("warning", 'Attribute "a" is duplicated')]),
         ("bad " + FFFD + " char", "v5", [("warning", FFFD + " in: {key}")]),
         ("multi\n    line", "v6", []),
+        # semantic ids are "<value>|<attributes>": messages compare value AND attributes, terms ignore attributes
+        # (FluentTerm.ignored_fields), comments, spans and the indentation of continuation lines never count
+        ("multi\n        line", "v6", []),                                  # only re-indented
+        ("plain value\n    .title = T1", "v1|t1", []),
+        ("plain value\n    .title = T2", "v1|t2", []),                      # only the attribute changed
+        ("plain value\n    .title = T1\n    .alt = A", "v1|t1,alt", []),    # attribute added
+        ("\n    .title = T1", "|t1", []),                                  # attribute-only message
+        ("\n    .title = T2", "|t2", []),
     ],
     "android": [
         ("plain value", "v1", []),
@@ -116,6 +130,35 @@ PALETTE = {
         ("<![CDATA[plain value]]>", "v1", []),
     ],
 }
+def pal_index(fmt, raw):
+    return [i for i, x in enumerate(PALETTE[fmt]) if x[0] == raw][0]
+
+
+# groups of palette entries that differ only in a detail (attribute, indentation, spelling, referenced entity)
+SIBLINGS = {
+    "ftl": [["plain value", "plain value\n    .title = T1", "plain value\n    .title = T2", "plain value\n    .title = T1\n    .alt = A"],
+            ["\n    .title = T1", "\n    .title = T2"], ["multi\n    line", "multi\n        line"]],
+    "dtd": [["Welcome to &brandShortName;", "see &OTHER; of &brandShortName;", "&vendorShortName; and &OTHER;", "plain value"],
+            ["a &amp; b", "a & b"]],
+    "properties": [["A third", "\\u0041 third"]],
+    "android": [["plain value", "<![CDATA[plain value]]>"]],
+}
+# extra value pairs for the exhaustive part (besides the two plain values)
+EXTRA_PAIRS = {
+    "ftl": [("plain value\n    .title = T1", "plain value\n    .title = T2"), ("\n    .title = T1", "\n    .title = T2"),
+            ("multi\n    line", "multi\n        line"), ("plain value", "plain value\n    .title = T1")],
+    "dtd": [("Welcome to &brandShortName;", "see &OTHER; of &brandShortName;"), ("&vendorShortName; and &OTHER;", "plain value")],
+}
+
+
+def sibling_of(fmt, val, rng):
+    raw = PALETTE[fmt][val][0]
+    for grp in SIBLINGS.get(fmt, []):
+        if raw in grp:
+            return pal_index(fmt, rng.choice([x for x in grp if x != raw]))
+    return None
+
+
 JUNK = {
     "properties": ["junk here", "no separator"],
     "dtd": ["<!ENTY junk>", "stray text"],
@@ -193,7 +236,12 @@ def print_file(fmt, items):
             emit(txt + "\n")
             continue
         raw, sem, chk = PALETTE[fmt][it["val"]]
-        key = key_for(fmt, it["key"], it.get("term", False))
+        term = bool(it.get("term", False)) and not raw.startswith("\n")     # a term needs a value
+        if fmt == "ftl" and term:
+            sem = sem.split("|")[0]                                          # terms compare without their attributes
+        key = key_for(fmt, it["key"], term)
+        # `&OTHER;` refers to another key of the same file (an entity referring to itself is not well-formed)
+        raw = raw.replace("&OTHER;", "&%s;" % ("k2" if key == "k1" else "k1"))
         indent = " " * it.get("indent", 0)
         rec = {"kind": "ent", "key": key, "sem": sem, "checks": [(lv, msg.replace("{key}", key)) for lv, msg in chk]}
         if fmt == "properties":
@@ -222,7 +270,7 @@ def print_file(fmt, items):
             emit(raw + "\n")
         elif fmt == "ftl":
             rec["off"] = pos
-            emit(key + it.get("sep", " = "))
+            emit(key + (it.get("sep", " = ").rstrip(" ") if raw.startswith("\n") else it.get("sep", " = ")))
             rec["voff"] = rec["off"]           # Fluent value offsets count from the entry
             emit(raw + "\n")
         elif fmt == "android":
@@ -345,21 +393,22 @@ def check_positions(fmt, desc, got):
 
 
 # ---------------------------------------------------------------------------------------------- generators
-def ref_variants_exhaustive(items):
+def ref_variants_exhaustive(items, vals=(0, 1)):
     """reference versions derived from the records: identical, each record re-valued, each record dropped"""
     ents = [j for j, it in enumerate(items) if it["kind"] == "ent"]
     yield "identical", list(items)
     for j in ents:
         v = dict(items[j])
-        v["val"] = 1 - v["val"] if v["val"] in (0, 1) else 0
+        v["val"] = vals[1] if v["val"] == vals[0] else vals[0]
         yield "revalue%d" % j, items[:j] + [v] + items[j + 1:]
         yield "drop%d" % j, items[:j] + items[j + 1:]
 
 
-def gen_exhaustive(ctx, fmt):
-    """all record lists over 2 keys x 2 plain values + junk up to length L, times derived references"""
-    L = 3 if ctx.tier == "quick" else 4
-    syms = [{"kind": "ent", "key": k, "val": v} for k in ("k1", "k2") for v in (0, 1)] + [{"kind": "junk", "text": JUNK[fmt][0]}]
+def gen_exhaustive(ctx, fmt, vals=(0, 1), L=None):
+    """all record lists over 2 keys x 2 values + junk up to length L, times derived references"""
+    if L is None:
+        L = 3 if ctx.tier == "quick" else 4
+    syms = [{"kind": "ent", "key": k, "val": v} for k in ("k1", "k2") for v in vals] + [{"kind": "junk", "text": JUNK[fmt][0]}]
     cases = []
     for n in range(L + 1):
         for seq in itertools.product(range(len(syms)), repeat=n):
@@ -369,8 +418,16 @@ def gen_exhaustive(ctx, fmt):
             cases.append((items, None, "noref"))
             if n <= 3:
                 cases.append((items, "missing", "missing"))
-                for name, r in ref_variants_exhaustive(items):
+                for name, r in ref_variants_exhaustive(items, vals):
                     cases.append((items, [x for x in r if x["kind"] != "junk"], name))
+    return cases
+
+
+def gen_exhaustive_extra(ctx, fmt):
+    """the same with value pairs that differ only in a detail (Fluent attributes / indentation, DTD entity references)"""
+    cases = []
+    for a, b in EXTRA_PAIRS.get(fmt, []):
+        cases += gen_exhaustive(ctx, fmt, (pal_index(fmt, a), pal_index(fmt, b)), 2 if ctx.tier == "quick" else 3)
     return cases
 
 
@@ -425,6 +482,9 @@ def gen_random(ctx, fmt, n):
                     continue                                       # dropped
                 if r < 0.4:
                     v["val"] = rng.randrange(len(PALETTE[fmt]))    # re-valued (may be the same or a re-spelling)
+                    sib = sibling_of(fmt, it["val"], rng)
+                    if sib is not None and rng.random() < 0.6:
+                        v["val"] = sib                             # ... or changed in a detail only
                 if r > 0.9:
                     extra = dict(it)
                     extra["val"] = rng.randrange(len(PALETTE[fmt]))
@@ -503,7 +563,19 @@ def gen_special(fmt):
                      (4, 1, "error", DUP % "a", True)], "blank-lines-are-junk"))
         out.append(("#filter emptyLines\n#define a 1\n\n#define b\n#unfilter emptyLines\n", "#define a 1\n#define b x\n",
                     [(4, 1, "warning", CHG % "b", True)], "instructions"))
+    if fmt == "dtd":
+        # each string is checked against itself with the LINTED file as context: an entity referenced anywhere in the linted
+        # file is known, whether or not the reference version of the file mentions it
+        out.append(('<!ENTITY a "Welcome to &brandShortName;">\n<!ENTITY b "see &a;">\n', '<!ENTITY a "Welcome">\n<!ENTITY b "see">\n',
+                    [(1, 1, "warning", CHG % "a", True), (2, 1, "warning", CHG % "b", True)], "entity-refs-revalued-in-reference"))
+        out.append(('<!ENTITY a "Welcome to &brandShortName;">\n<!ENTITY b "plain">\n', '<!ENTITY b "plain">\n',
+                    [], "entity-ref-dropped-in-reference"))
     if fmt == "ftl":
+        out.append(("k1 = v\n    .title = T1\n", "k1 = v\n    .title = T2\n", [(1, 1, "warning", CHG % "k1", True)], "attribute-changed"))
+        out.append(("k1 = v\n    .title = T1\n", "k1 = v\n", [(1, 1, "warning", CHG % "k1", True)], "attribute-added"))
+        out.append(("k1 =\n    .title = T1\n", "k1 =\n    .title = T2\n", [(1, 1, "warning", CHG % "k1", True)], "attribute-only-message"))
+        out.append(("k1 = multi\n    line\n", "# c\nk1 = multi\n          line\n", [], "re-indented"))
+        out.append(("-t1 = v\n    .gender = m\n", "-t1 = v\n    .gender = f\n", [], "term-attributes-ignored"))
         out.append(("# attached\nk1 = v\nk1 = v\n", "k1 = v\n", None, "attached-comment"))
     return [o for o in out if o[2] is not None]
 
@@ -566,7 +638,7 @@ def run(ctx):
     os.makedirs(SCRATCH, exist_ok=True)
     allcases = []
     for fmt in FORMATS:
-        cs = gen_exhaustive(ctx, fmt)
+        cs = gen_exhaustive(ctx, fmt) + gen_exhaustive_extra(ctx, fmt)
         out.count("%s.exhaustive" % fmt, len(cs))
         rnd = gen_random(ctx, fmt, ctx.n(500, 12000))
         out.count("%s.random" % fmt, len(rnd))
